@@ -342,6 +342,7 @@ def motion_op_strategy(coord=None, shapes=True, depth=2):
                                "label": st.sampled_from(["A", "B", "C", "U", "V", "W", "X", "Y",
                                                          "Z", " a ", "w"]),
                                "via": st.sampled_from(["rename_axis", "format"])}),
+        st.integers(0, 9).map(lambda n: {"op": "precision", "dp": n}),
         st.fixed_dictionaries({"op": st.just("query"),
                                "fn": st.sampled_from(["to_absolute", "to_distance_mode",
                                                       "to_absolute_list"]),
@@ -442,7 +443,7 @@ def exec_primitive(g, op):
         kw = dict(kw)
         kw.update(op.get("params", {}))
         return getattr(g.trace, method)(*args, **kw)
-    if name in ("relabel", "query"):     # carried out by the caller's `before` hook
+    if name in ("relabel", "query", "precision"):     # carried out by the caller's `before` hook
         return None
     if name == "noise":     # state-tracked calls that do not move anything
         return getattr(g, op["call"])(*op.get("args", []))
